@@ -109,7 +109,11 @@ impl Source for FileSystem {
     }
 
     fn exists(&self, entry: DirEntry) -> bool {
-        self.path_of(entry).exists()
+        let path = self.path_of(entry);
+        match entry {
+            DirEntry::File(..) => path.is_file(),
+            DirEntry::Directory(_) => path.is_dir(),
+        }
     }
 
     fn make_source(&self) -> Option<Box<dyn Source + Send>> {
